@@ -70,6 +70,11 @@ CHECKS = {
    note="Trusted: as C02 plus the harness oracle expected_fixed. Partial: the composite distribution is checked per case, not proved. Axioms: none.",
    technique="Coq proofs on the fix model + correspondence + per-nucleotide oracle",
    design="5 C12"),
+ "C03": dict(
+   text="Proof (partial) on the .des model: the sequence list assigned to a structure re-reads (names through their own sequence lines, * as reverse complement, zero-length domains skipped) to exactly the nucleotides of the structure's strands in order; the auxiliary duplex of length L pairs position L-1-i of its first strand with position L+i, so its second strand is the reverse complement of its first (3 theorems, closed). Per case: model and implementation .des compared line by line on components and nested system libraries, and the constraint partition (classes with parity and allowed bases) over every position of every program structure compared between the .des incl. its auxiliary duplexes and the source denotation; targets and objective lines checked.",
+   note="Partial: global equivalence of the two constraint sets is decided per case by the partition oracle, not proved. One open known finding (duplicate auxiliary structure names, see known_findings.txt). Trusted: as C02 plus the harness .des reader and partition oracle. Axioms: none.",
+   technique="Coq proofs on the .des model + line correspondence + constraint-partition oracle",
+   design="5 C03"),
 }
 
 checks = []
